@@ -94,6 +94,7 @@ def main(a):
     obligations = 0
     discharged = 0
     bounded_obl = 0
+    bounded_passed = 0
     solver_s = 0.0
     units_ev = []
     samples = []
@@ -195,7 +196,8 @@ def main(a):
                 for h in hs:
                     r = results[h.name]
                     functions.update(h.funcs)
-                    obligations += r["checks"]
+                    if h.kind != "bounded":
+                        obligations += r["checks"]      # bounded stand-ins are reported separately, never counted as proved
                     solver_s += r.get("solver_s", 0.0)
                     ev = {"engine": "kani-cbmc", "unit": h.name, "kind": h.kind, "cfg": cfg, "status": r["status"],
                           "checks": r["checks"], "passed": r["passed"], "covers": r.get("covers", 0),
@@ -205,7 +207,10 @@ def main(a):
                         bounded_obl += r["checks"]
                         ev["bounded_note"] = h.note
                     if r["status"] == "passed":
-                        discharged += r["passed"]
+                        if h.kind != "bounded":
+                            discharged += r["passed"]
+                        else:
+                            bounded_passed += r["passed"]
                         if len(samples) < 6:
                             samples.append({"engine": "kani", "harness": h.name, "contract": h.contract,
                                             "checks_discharged": r["passed"]})
@@ -215,7 +220,8 @@ def main(a):
                         ev["output_tail"] = r.get("output_tail", "")[-1500:]
                         undecided.append((h.name, r.get("reason", "")))
                     else:
-                        discharged += r["passed"]
+                        if h.kind != "bounded":
+                            discharged += r["passed"]
                         unmatched = []
                         for fc in r["failed_checks"]:
                             desc = "%s [%s]" % (fc["description"], fc["where"])
@@ -275,6 +281,8 @@ def main(a):
         "engines": sorted(engines_used),
         "functions_under_contract": sorted(functions),
         "bounded_stand_in_obligations": bounded_obl,
+        "bounded_stand_in_passed": bounded_passed,
+        "bounded_note": "checks of harnesses labelled kind=bounded (stated bound in their entry under units); not part of obligations/discharged",
         "solver_s": round(solver_s, 2),
         "units": units_ev,
         "samples": samples or [{"note": "no sample recorded"}],
